@@ -12,10 +12,11 @@ from concurrent.futures import ThreadPoolExecutor
 
 VERIF = os.path.dirname(os.path.dirname(os.path.dirname(os.path.abspath(__file__))))
 SPEC = os.path.join(VERIF, "spec")
-HARNESS = os.path.join(VERIF, "harness")
+# the three overrides below exist for bin/seedtest only (checks against a scratch copy of the repository)
+HARNESS = os.environ.get("VERIF_HARNESS") or os.path.join(VERIF, "harness")
 FLV = os.path.join(HARNESS, "target", "release", "flv")
-EVID = os.path.join(VERIF, "evidence")
-REPLAYS = os.path.join(VERIF, "replays")
+EVID = os.environ.get("VERIF_EVID") or os.path.join(VERIF, "evidence")
+REPLAYS = os.environ.get("VERIF_REPLAYS") or os.path.join(VERIF, "replays")
 KF_FILE = os.path.join(VERIF, "known_findings.json")
 TLA_CP = "/opt/veriftools/tla/tla2tools.jar:/opt/veriftools/tla/CommunityModules-deps.jar"
 NCPU = os.cpu_count() or 4
@@ -147,9 +148,13 @@ def shard(lst, n):
     return [lst[i::n] for i in range(n)]
 
 
-def exec_flw(scen_file, trace_file, timeout=600, sub="flw", extra=()):
+def exec_flw(scen_file, trace_file, timeout=600, sub="flw", extra=(), env=None):
+    e = dict(os.environ)
+    e.setdefault("TZ", "UTC")
+    if env:
+        e.update(env)
     p = subprocess.run([FLV, sub, scen_file, trace_file, *extra], stdout=subprocess.PIPE, stderr=subprocess.PIPE,
-                       text=True, timeout=timeout)
+                       text=True, timeout=timeout, env=e)
     if p.returncode != 0:
         raise ToolError(f"flv {sub} failed rc={p.returncode}: {p.stderr[-2000:]}")
     m = re.search(r"scenarios=(\d+) events=(\d+)", p.stdout)
@@ -182,22 +187,31 @@ def judge(mon, trace_file, metadir, timeout=900, env=None):
     return bads, counts, consumed, nlines
 
 
-def run_sharded(pid, mon, scens, wd, sub="flw", nshards=None, mon_env=None, exec_extra=()):
+def run_sharded(pid, mon, scens, wd, sub="flw", nshards=None, mon_env=None, exec_extra=(), shard_env=None):
     """Write scenarios into shards, execute them on the real code, judge every shard trace with TLC.
     Returns dict(bads=[(sc,n,pred)], counts=[...], events, traces=[files])."""
     nshards = nshards or min(12, NCPU - 2 if NCPU > 4 else NCPU)
-    shards = shard(scens, nshards)
+    if scens and "grp" in scens[0]:
+        # scenarios of one group are compared with each other: keep them together and in order
+        groups = {}
+        for s in scens:
+            groups.setdefault(s["grp"], []).append(s)
+        gl = list(groups.values())
+        shards = [[s for g in part for s in g] for part in shard(gl, nshards)]
+    else:
+        shards = shard(scens, nshards)
     files = []
     for i, sh in enumerate(shards):
         sf = os.path.join(wd, f"{mon}-scen-{i}.ndjson")
         with open(sf, "w") as f:
             for s in sh:
                 f.write(json.dumps(s) + "\n")
-        files.append((sf, os.path.join(wd, f"{mon}-trace-{i}.ndjson"), os.path.join(wd, f"{mon}-meta-{i}")))
+        files.append((sf, os.path.join(wd, f"{mon}-trace-{i}.ndjson"), os.path.join(wd, f"{mon}-meta-{i}"),
+                      shard_env(i) if shard_env else None))
 
     def one(t):
-        sf, tf, md = t
-        nsc, nev = exec_flw(sf, tf, sub=sub, extra=exec_extra)
+        sf, tf, md, senv = t
+        nsc, nev = exec_flw(sf, tf, sub=sub, extra=exec_extra, env=senv)
         bads, counts, consumed, nlines = judge(mon, tf, md, env=mon_env)
         return nsc, nev, bads, counts
 
